@@ -1126,11 +1126,24 @@ func (g *gen) each(d int) any {
 	g.inEach = true
 	defer func() { g.inEach = was }()
 	var fn any
-	switch g.r.Intn(5) {
+	switch g.r.Intn(6) {
 	case 0:
 		fn = []any{"set", "@.asm", g.num(d - 1)}
 	case 1:
 		fn = []any{"set", "@.asm", g.str(d - 1)}
+	case 5:
+		// a scratch member under @ that only some elements set and every element reads: each element gets
+		// its own local data, so nothing may carry over from the element before (asm hands the return of
+		// each statement to the next as @, hence the [true @] branch)
+		test := g.pick([]any{"gt", "@.src.id", int64(1)}, []any{"eq", "@.src.id", int64(1)}, []any{"lt", "@.src.id", int64(2)},
+			[]any{"eq", "@.src.name", "b"}, []any{"lt", "@.src", int64(2)}, g.boolean(d-1))
+		val := g.pick("bulk", int64(7), "@.src.name", []any{"list", "@.src"})
+		if g.r.Intn(2) == 0 {
+			fn = []any{"asm", []any{"cond", []any{test, []any{"set", "@.tag", val}}, []any{true, "@"}}, []any{"set", "@.asm", "@.tag"}}
+		} else {
+			fn = []any{"asm", []any{"set", "@.asm", map[string]any{}}, []any{"cond", []any{test, []any{"set", "@.tag", val}}, []any{true, "@"}},
+				[]any{"set", "@.asm.tag", "@.tag"}, []any{"set", "@.asm.id", g.pick("@.src.id", "@.src")}}
+		}
 	case 2:
 		if g.r.Intn(2) == 0 {
 			// a nested literal used as a template and written into below its first level
